@@ -663,7 +663,7 @@ func (p *Core) checkAck(ci int, ps *PktState, r *sim.TxResult, pr PktState, ph c
 	if !ps.V2 && pr.closedSrc {
 		w.Violate("C14", "ack-on-closed-ordered-channel", "", fmt.Sprintf("%s: acknowledgement processed on an ordered channel end closed by a timeout", ps.Pkt))
 	}
-	if ps.X == nil && ps.AckCb != 1 {
+	if ps.X == nil && !p.Routes[ps.Route].OneWay && ps.AckCb != 1 {
 		w.Violate("C03", "ack-without-callback", "", fmt.Sprintf("%s: acknowledgement SUCCESS but the callback ran %d times", ps.Pkt, ps.AckCb))
 	}
 	w.MixSig("a" + p.Routes[ps.Route].Kind)
@@ -733,7 +733,7 @@ func (p *Core) checkTimeout(ci int, ps *PktState, r *sim.TxResult, pr PktState, 
 			}
 		}
 	}
-	if ps.X == nil && ps.TmoCb != 1 {
+	if ps.X == nil && !p.Routes[ps.Route].OneWay && ps.TmoCb != 1 {
 		w.Violate("C03", "timeout-without-callback", "", fmt.Sprintf("%s: timeout SUCCESS but the callback ran %d times", ps.Pkt, ps.TmoCb))
 	}
 	if pr.Done == "acked" {
